@@ -38,6 +38,10 @@ class Equivalence(metaclass=_RegisteredEquivalence):
 
     def convert(self, x, new_dims, **kwargs):
         if x.units.dimensions in self._dims and new_dims in self._dims:
+            if not self.in_place and x.dtype.kind in "iu":
+                # the formulas are evaluated in floating point (as the in-place
+                # form does): integer powers and products overflow silently
+                x = x.astype("float64")
             return self._convert(x, new_dims, **kwargs)
         else:
             raise InvalidUnitEquivalence(self, x.units, new_dims)
